@@ -21,7 +21,7 @@ add("C09", "model_checking",
     "Explicit-state BFS over all operation sequences (blocks incl. forks/late/double proposals/gaps, empty slots, votes for known/unknown/older/same-epoch targets, block+justified/finalized updates with balance changes, pins, Head) up to the stated depth from four start states on the REAL ProtoForkChoice; every step compared with a naive LMD-GHOST model (head from every node, status classes).",
     fcnote, "explicit-state model checking of the implementation (BFS, exact state merging, lock-step reference model)", "DESIGN.md 3/C09")
 add("C10", "model_checking",
-    "Same explorer; every UpdateJustified candidate (ahead/equal/behind/unknown/conflicting/outside pin, block-node and gap-slot anchors) x sink behaviours (accepting, nil, failing at call 0/1/2) followed by every follow-up op; oracle clauses: returns (self-deadlock detected by the sequential lock shim, no wall clock), exact prune set with canonical flags, retained nodes answer all queries, later votes/blocks work, older/equal change nothing, outside finalized/pinned subtree refused.",
+    "Same explorer; every UpdateJustified candidate (ahead/equal/behind/unknown/conflicting/outside pin, block-node and gap-slot anchors) x sink behaviours (accepting, nil, failing at call 0/1/2: a node whose report failed must not have been dropped) followed by every follow-up op; oracle clauses: returns (self-deadlock detected by the sequential lock shim, no wall clock), exact prune set with canonical flags, retained nodes answer all queries, later votes/blocks work, older/equal change nothing, outside finalized/pinned subtree refused.",
     fcnote + " One recorded known finding (index-based pruning).", "explicit-state model checking of the implementation + sequential lock shim for blocking", "DESIGN.md 3/C10")
 add("C11", "model_checking",
     "Same explorer; in every reached state (before and after pruning) all navigation queries for all anchors x slots x filters are compared with direct walks of the model tree; unknown/pruned roots must be reported unknown; a panic is a violation.",
@@ -31,7 +31,7 @@ add("C16", "model_checking",
     "Trusted: per-handle history lists (internal/pkx). A key duplicated at an earlier index of the same history (never produced by deposit processing) only asserts termination / no panic / other handles undisturbed.",
     "explicit-state model checking of the implementation (BFS, exact state merging)", "DESIGN.md 3/C16")
 add("C20", "model_checking",
-    "Explicit-state BFS over add/query/prune/reset sequences on the real attestation, exit, slashing and sync-committee pools (committees of 3, all single and aggregate bit patterns, two data roots in one epoch, malformed bitfields, duplicates, same-key-different-content, fresh sync pool before any Reset); oracle is exactly the statement: no panic, nil-or-error, double single vote reported, duplicate changes no result, every returned item was added unaltered and matches the filter, accepted aggregates stay covered / slashings and exits stay returned until pruned, pruning removes exactly the too-old items.",
+    "Explicit-state BFS over add/query/prune/reset sequences on the real attestation, exit, slashing and sync-committee pools (sync pool: the three unexported slot buffers are read by reflection after every step and must hold exactly the items added for the slots still inside the window; committees of 3, all single and aggregate bit patterns, two data roots in one epoch, malformed bitfields, duplicates, same-key-different-content, fresh sync pool before any Reset); oracle is exactly the statement: no panic, nil-or-error, double single vote reported, duplicate changes no result, every returned item was added unaltered and matches the filter, accepted aggregates stay covered / slashings and exits stay returned until pruned, pruning removes exactly the too-old items.",
     "Trusted: multiset models in internal/poolx. 'stored' is read as 'add returned nil'. Retention of aggregates is asserted as participant coverage (the pool may drop redundant subsets).",
     "explicit-state model checking of the implementation (BFS, lock-step multiset model)", "DESIGN.md 3/C20")
 
@@ -48,7 +48,7 @@ chnote = ("Trusted: the reference transition internal/refspec (phase0..deneb, a 
           "symbolic signatures) and internal/refssz; SHA-256; the BLS library (signing on the harness side). Tiny presets: 4 slots/epoch, 16 validators, "
           "forks at epochs 1-4 and variants (phase0-only, two upgrades in one epoch, ...). Histories up to the stated length and deviation bound.")
 add("C01", "model_checking",
-    "Deviation-bounded exhaustive exploration of beacon-chain histories: every history of N slots that deviates from a base scenario (healthy, ~50% participation/leak, deposits with eth1 votes, phase0-only, ...) in at most k slots (k<=1 quick on the full ~35-entry per-slot menu of operation mixes; k<=2 thorough on the interacting sub-menu). Blocks are produced from the REFERENCE state with the reference state root and real BLS signatures, travel as bytes through zrnt's decoder and StateTransition(validateResult=true); zrnt must accept and the post-state bytes and cached root must equal the reference's.",
+    "Deviation-bounded exhaustive exploration of beacon-chain histories: every history of N slots that deviates from a base scenario (healthy, ~50% participation/leak, deposits with eth1 votes incl. undecodable signatures and sibling histories that give the same validator indices other keys, phase0-only, mass ejection of the whole registry through the exit queue, withdrawals with every payload full and the sweep wrapping around the registry, ...) in at most k slots (k<=1 quick on the full ~35-entry per-slot menu of operation mixes; k<=2 thorough on the interacting sub-menu). Blocks are produced from the REFERENCE state with the reference state root and real BLS signatures, travel as bytes through zrnt's decoder and StateTransition(validateResult=true); zrnt must accept and the post-state bytes and cached root must equal the reference's.",
     chnote, "bounded exhaustive exploration of operation histories on the implementation, lock-step with a reference model (explicit-state, deviation bound)", "DESIGN.md 3/C01")
 add("C02", "model_checking",
     "Same explorer with per-slot observation: the state is advanced slot by slot on both sides and compared after EVERY slot (root caching, every epoch sub-transition, each in-place upgrade individually), with and without blocks in between (base scenarios: no blocks at all, one block per epoch, healthy, leak, deposits/activations, phase0-only; deviations: gaps, missing/wrong-target attestations, mass exits and slashings).",
@@ -58,14 +58,14 @@ add("C07", "model_checking",
     "The C01 exploration (same histories, same bounds) with a committee hook evaluated in EVERY reached state: GetBeaconCommittee for every slot of the previous/current/next epoch x every committee index (+ the first out-of-range index), GetCommitteeCountPerSlot, GetBeaconProposer for every slot of the current epoch, current and next sync-committee indices and cached pubkeys vs the specification functions evaluated on the reference state (per-index compute_shuffled_index, spec slicing, balance-weighted sampling); partition invariant (every active validator in exactly one committee, sizes differ by at most 1). Also evaluated on every genesis state of the C13 enumeration.",
     chnote, "bounded exhaustive exploration of histories on the implementation with a per-state oracle (reference model)", "DESIGN.md 3/C07")
 add("C08", "model_checking",
-    "The C01 exploration with a context hook in EVERY reached state: all exported parts of the long-lived EpochsContext (three shufflings incl. committees, proposers, effective balances, total active stake and root, both sync committees' indices and pubkeys, pubkey<->index look-ups for every validator and every known key) vs NewEpochsContext on the state re-read from its own bytes; plus a differential continuation: the next default block applied to (copy of the long-lived pair) and to (reloaded state, fresh context) must give the same error/post-state bytes. Branching uses CopyState + Clone like a client.",
+    "The C01 exploration with a context hook in EVERY reached state: all exported parts of the long-lived EpochsContext (three shufflings incl. committees, proposers, effective balances, total active stake and root, both sync committees' indices and pubkeys, pubkey<->index look-ups for every validator and every known key) vs NewEpochsContext on the state re-read from its own bytes; a step that fails on the long-lived pair is retried on the reloaded state with a from-scratch context (success there = the context was the cause); plus a differential continuation: the next default block applied to (copy of the long-lived pair) and to (reloaded state, fresh context) must give the same error/post-state bytes. Branching uses CopyState + Clone like a client.",
     chnote + " EffectiveBalances is documented as 'at the start of the epoch': compared on the indices the epoch-start registry had.", "bounded exhaustive exploration of histories on the implementation with a differential (from-scratch / reloaded) oracle", "DESIGN.md 3/C08")
 add("C12", "exploration",
     "Per chain view (8 views thorough: heads in every fork phase0..deneb of the tiny preset, built from real transitions: main chain with a gap slot, an old branch that conflicts with finality once finality moves, a sibling of the head; head on either sibling) and per gossip topic: the honest message plus every single-condition corruption of it from a condition table written from the networking specification (signature by another key / under another domain / fork version, selection proofs, subnet, committee index, bit counts and lengths, unknown / non-descendant / finality-conflicting roots, flagged-bad blocks, duplicates via each seen-cache), and a full clock grid (every slot of the propagation window +-2, x 10 offsets around both 500 ms disparity edges). Expected class (ACCEPT / not ACCEPT / IGNORE) from the table; verdict and every Mark* call from zrnt; after each refusal the honest message is validated on the same session and must be accepted.",
     chnote + " Trusted additionally: the condition tables in internal/chainh/p2pcases.go and the View backend (explicit block tree, recorded seen-caches). Blob sidecar and BLS-change topics have no validator in this library.",
     "bounded exhaustive enumeration of (chain view x message x single-condition corruption x clock position x seen-cache content) on the implementation against a condition-table oracle", "DESIGN.md 3/C12")
 add("C13", "exploration",
-    "Every deposit sequence of length <= 3 (quick) / 4 (thorough) over a 14-entry alphabet (amounts on both sides of every threshold, invalid proof-of-possession, non-curve pubkey, top-ups with valid/invalid signatures pushing across MAX, same key with other credentials) appended to / inserted into a base of valid deposits, with real Merkle proofs from an independent deposit tree, x 3 eth1 timestamps: genesis state bytes and root vs the reference initialize_beacon_state_from_eth1, returned context vs from-scratch, committees vs the specification, IsValidGenesisState on both sides of both thresholds; KickStartState on 6 validator sets.",
+    "Every deposit sequence of length <= 3 (quick) / 4 (thorough) over a 16-entry alphabet (amounts on both sides of every threshold, invalid proof-of-possession, non-curve pubkey, signatures that are not a point encoding (new validator and top-up), top-ups with valid/invalid signatures pushing across MAX, same key with other credentials) appended to / inserted into a base of valid deposits, with real Merkle proofs from an independent deposit tree, x 3 eth1 timestamps: genesis state bytes and root vs the reference initialize_beacon_state_from_eth1, returned context vs from-scratch, committees vs the specification, IsValidGenesisState on both sides of both thresholds; KickStartState on 6 validator sets.",
     chnote, "bounded exhaustive enumeration of input sequences against a reference model", "DESIGN.md 3/C13")
 add("C14", "exploration",
     "Finite exhaustive comparisons: all 462 non-decreasing fork schedules over {1..5,never} x epochs 0..7 x first/last slot x 2 genesis validators roots for Spec.ForkVersion / ForkDecoder.ForkDigest / BlockAllocator; all 70 phase0..deneb schedules as real chains (state type, state.Fork(), full state vs the reference after every slot; block<->envelope round trip; signature under the slot's version verifies through the envelope, under each other version it does not); every key of the built-in mainnet and minimal configurations and 30 spec-level Go constants against a pinned, reviewed table.",
@@ -73,10 +73,10 @@ add("C14", "exploration",
     "finite exhaustive enumeration of configurations x epochs, chains replayed on the implementation", "DESIGN.md 3/C14")
 
 add("C03", "model_checking",
-    "At every state of the base histories (all forks), every single-rule corruption from a 117-entry mutator table written rule by rule from the specification (header, randao, attestations, proposer/attester slashings, exits incl. exits added to exit-free blocks, deposits, BLS changes, sync aggregate, payload/withdrawals/blob commitments; signature replays under every other domain type, fork version and chain) of every base block (default and operation-carrying blocks), in two forms: (a) original proposer signature, validateResult=true; (b) proposer signature redone, validateResult=false so that the rule under test is the only thing that can reject. The reference model decides: rejects => zrnt must return an error; still valid => zrnt must accept with an identical post-state; a panic is a violation in every case.",
+    "At every state of the base histories (all forks), every single-rule corruption from a 117-entry mutator table written rule by rule from the specification (header, randao, attestations, proposer/attester slashings, exits incl. exits added to exit-free blocks and exits dated before the latest fork (signed for that epoch = valid, signed for the current epoch = invalid), deposits, BLS changes, sync aggregate, payload/withdrawals/blob commitments; signature replays under every other domain type, fork version and chain) of every base block (default and operation-carrying blocks), in two forms: (a) original proposer signature, validateResult=true; (b) proposer signature redone, validateResult=false so that the rule under test is the only thing that can reject. The reference model decides: rejects => zrnt must return an error; still valid => zrnt must accept with an identical post-state; a panic is a violation in every case.",
     chnote, "bounded exhaustive enumeration of single-rule corruptions over explored chain states, verdict by a reference model", "DESIGN.md 3/C03")
 add("C18", "fault_enumeration",
-    "For every transition (StateTransition of a block, or ProcessSlots) of the base histories and one-deviation variants: a counting run learns the P context polls (with their call sites) and the E engine calls; then EVERY cancellation point (context cancelled from poll i on, i = 0..P-1) and EVERY non-trivial engine verdict vector in {valid, invalid, error}^E is executed on the real transition and must surface as an error (no panic); the undisturbed instrumented run must reproduce the plain post-state; recorded engine arguments (payload root, versioned hashes in commitment order, parent beacon block root) are compared with what the specification prescribes.",
+    "For every transition (StateTransition of a block, or ProcessSlots) of the base histories and one-deviation variants: a counting run learns the P context polls (with their call sites) and the E engine calls; then EVERY cancellation point (context cancelled from poll i on, i = 0..P-1) and EVERY non-trivial engine verdict vector in {valid, invalid, error}^E is executed on the real transition and must surface as an error (no panic); the undisturbed instrumented run must reproduce the plain post-state; recorded engine arguments (payload root, versioned hashes in commitment order, parent beacon block root) are compared with what the specification prescribes, and the set of engine queries made must be exactly the fork's verify_and_notify_new_payload sequence (block hash, versioned hashes from deneb on, notify), each once.",
     chnote + " A cancellation after the last poll of a transition is unobservable by any caller and not claimed.", "exhaustive fault-point enumeration (every context poll x every engine verdict vector) on the implementation", "DESIGN.md 3/C18")
 
 add("C17", "model_checking",
@@ -93,7 +93,7 @@ add("C05", "exploration",
     "(a) for every value of the C04 enumeration: struct HashTreeRoot = root of the tree view built from the bytes = SSZ merkleization of the specification schema (and the view re-serialises to the same bytes). (b) on the tree-backed state of each of the 6 forks: every sequence of <= 2 (quick) / 3 (thorough) mutations out of ~60 (setters, sub-view element writes, appends, resets, whole-subtree replacements, AddValidator) x every pattern of intermediate HashTreeRoot queries x root cached or not before the first mutation: cached root = root of the same content rebuilt from bytes = SSZ root. (c) every state reached by the C01/C02 explorations passes the same root comparison (chainh.Diff).",
     ssznote, "bounded exhaustive enumeration of values and of mutation sequences on the implementation against a reference merkleizer", "DESIGN.md 3/C05")
 add("C15", "model_checking",
-    "(a) accessor table (~65 setters / element writes / appends per fork) x 6 fork state types x 3 presets on the all-leaves-distinct state: after each call the state's bytes equal the model edited BY FIELD NAME (exactly the named field changed, nothing else) and every getter / typed sub-view read returns the model's value; getters after loading bytes likewise. (b) copy independence: state0, state1 = Copy(state0), state2 = Copy(state1); every sequence (depth bound 2 quick / 3 thorough) of mutations on any live state; after EVERY step every live state must equal its never-shared twin. Copies with cloned contexts advanced by real transitions are exercised by every branch of the C01/C08 explorations (chainh.Node.Branch).",
+    "(a) accessor table (~65 setters / element writes / appends per fork) x 6 fork state types x 3 presets on the all-leaves-distinct state: after each call the state's bytes equal the model edited BY FIELD NAME (exactly the named field changed, nothing else) and every getter / typed sub-view read returns the model's value; getters after loading bytes likewise. (b) copy independence: state0, state1 = Copy(state0), state2 = Copy(state1); every sequence (depth bound 2 quick / 3 thorough) of mutations on any live state; after EVERY step every live state must equal its never-shared twin. Every pointer/slice argument handed to a setter is overwritten by the caller afterwards (the state must have copied it). Typed container sub-views obtained from the state's own tree (checkpoints, fork, eth1 data, block header, execution payload header): every reader method vs the model field of the same name, Raw() vs the model's bytes. (c) sibling copies: at every state of three base chain histories two copies (CopyState + Clone); one is advanced by each menu deviation and two epoch transitions; original and untouched sibling are re-checked (state bytes, cached root, whole context vs from-scratch), then vice versa.",
     ssznote, "explicit enumeration of operation sequences on the implementation, lock-step with a reference model (twin states)", "DESIGN.md 3/C15")
 
 claimed = {c["property_id"] for c in checks}
